@@ -1,6 +1,7 @@
 import ShVerif.Model.L3Glob
 import ShVerif.Proofs.L3Glob
 import ShVerif.Proofs.C17
+import ShVerif.Proofs.C17Ext
 /-
   C17 — Glob patterns match exactly what bash matches.
 
@@ -64,7 +65,7 @@ theorem regexp_language_partial (m : Mode) (p : Str) (t : Top) (he : m.entire = 
   | ok g =>
     rw [hp] at ha
     simp only [TopAgree] at ha
-    obtain ⟨body, hb, hsem⟩ := ha
+    obtain ⟨body, hb, _, hsem⟩ := ha
     rw [hb] at h
     simp at h
     subst h
@@ -90,9 +91,117 @@ theorem regexp_error_iff_partial (m : Mode) (p : Str) (e : Err) (he : m.entire =
   | ok g =>
     rw [hp] at ha
     simp only [TopAgree] at ha
-    obtain ⟨body, hb, _⟩ := ha
+    obtain ⟨body, hb, _, _⟩ := ha
     rw [hb]
     simp
+
+/-- **Language equality with extended operators** — the mode of `case` and `[[ ]]`
+    (EntireString|ExtendedOperators, plus any of NoGlobCase, Shortest, NoGlobStar, GlobLeadingDot;
+    no Filenames): on the `supported` patterns whose pattern-lists are flat (`flatLists`: the
+    alternatives of every `?(…) *(…) +(…) @(…)` consist of ordinary and escaped characters, `?`
+    and `*`), the expression accepts exactly the strings the pattern matches. -/
+theorem regexp_language_ext_partial (m : Mode) (p : Str) (t : Top) (he : m.entire = true)
+    (hx : m.ext = true) (hf : m.filenames = false) (hs : supported m p = true)
+    (hl : flatLists m p = true) (h : regexpOf m p = .ok t) : ∀ s, t.matches s = globMatch m p s := by
+  intro s
+  have ha := top_agree_ext m hx hf p.length (p.length + 1) .start 0 p (p.length + 1) (p.length + 1)
+    (p.length + 1) (Nat.lt_succ_self _) (Nat.lt_succ_self _) (Nat.le_refl _) hs hl
+  rw [regexpOf_entire he] at h
+  unfold globMatch parseGlob
+  cases hp : parseSeq m (p.length + 1) 0 p with
+  | error e =>
+    rw [hp] at ha
+    simp only [TopAgree] at ha
+    rw [ha] at h
+    cases h
+  | ok g =>
+    rw [hp] at ha
+    simp only [TopAgree] at ha
+    obtain ⟨body, hb, _, hsem⟩ := ha
+    rw [hb] at h
+    simp at h
+    subst h
+    simp only [Top.matches, he, if_true]
+    rw [Bool.eq_iff_iff, rmatch_iff, gmatch_full_iff]
+    exact hsem true s
+
+/-- **Errors with extended operators**, same region. -/
+theorem regexp_error_iff_ext_partial (m : Mode) (p : Str) (e : Err) (he : m.entire = true)
+    (hx : m.ext = true) (hf : m.filenames = false) (hs : supported m p = true)
+    (hl : flatLists m p = true) : regexpOf m p = .error e ↔ malformed m p = some e := by
+  have ha := top_agree_ext m hx hf p.length (p.length + 1) .start 0 p (p.length + 1) (p.length + 1)
+    (p.length + 1) (Nat.lt_succ_self _) (Nat.lt_succ_self _) (Nat.le_refl _) hs hl
+  rw [regexpOf_entire he]
+  unfold malformed parseGlob
+  cases hp : parseSeq m (p.length + 1) 0 p with
+  | error e' =>
+    rw [hp] at ha
+    simp only [TopAgree] at ha
+    rw [ha]
+    simp
+  | ok g =>
+    rw [hp] at ha
+    simp only [TopAgree] at ha
+    obtain ⟨body, hb, _, _⟩ := ha
+    rw [hb]
+    simp
+
+/-- **The result compiles** (first region): the model of "regexp.Compile accepts the expression"
+    (`goCompiles`, tied to the real `regexp.Compile` by the `compiles` stream) holds, so
+    `regexp.MustCompile` does not panic. -/
+theorem regexp_compiles_partial (m : Mode) (p : Str) (t : Top) (he : m.entire = true)
+    (hx : m.ext = false) (hf : m.filenames = false) (hs : supported m p = true)
+    (h : regexpOf m p = .ok t) : goCompiles t.body = true := by
+  have ha := top_agree m hx hf p.length (p.length + 1) .start 0 p (p.length + 1) (p.length + 1)
+    (Nat.lt_succ_self _) (Nat.lt_succ_self _) hs
+  rw [regexpOf_entire he] at h
+  cases hp : parseSeq m (p.length + 1) 0 p with
+  | error e =>
+    rw [hp] at ha
+    simp only [TopAgree] at ha
+    rw [ha] at h
+    cases h
+  | ok g =>
+    rw [hp] at ha
+    simp only [TopAgree] at ha
+    obtain ⟨body, hb, hc, _⟩ := ha
+    rw [hb] at h
+    simp at h
+    subst h
+    exact hc
+
+/-- **The result compiles** (extended operators, flat pattern-lists). -/
+theorem regexp_compiles_ext_partial (m : Mode) (p : Str) (t : Top) (he : m.entire = true)
+    (hx : m.ext = true) (hf : m.filenames = false) (hs : supported m p = true)
+    (hl : flatLists m p = true) (h : regexpOf m p = .ok t) : goCompiles t.body = true := by
+  have ha := top_agree_ext m hx hf p.length (p.length + 1) .start 0 p (p.length + 1) (p.length + 1)
+    (p.length + 1) (Nat.lt_succ_self _) (Nat.lt_succ_self _) (Nat.le_refl _) hs hl
+  rw [regexpOf_entire he] at h
+  cases hp : parseSeq m (p.length + 1) 0 p with
+  | error e =>
+    rw [hp] at ha
+    simp only [TopAgree] at ha
+    rw [ha] at h
+    cases h
+  | ok g =>
+    rw [hp] at ha
+    simp only [TopAgree] at ha
+    obtain ⟨body, hb, hc, _⟩ := ha
+    rw [hb] at h
+    simp at h
+    subst h
+    exact hc
+
+/-- **The matcher** `internal.ExtendedPatternMatcher` (the function `case` and `[[ ]]` call with
+    EntireString|ExtendedOperators): in the second region it does not panic and decides the
+    reference semantics. -/
+theorem extended_matcher_partial (m : Mode) (p : Str) (t : Top) (he : m.entire = true)
+    (hx : m.ext = true) (hf : m.filenames = false) (hs : supported m p = true)
+    (hl : flatLists m p = true) (h : regexpOf m p = .ok t) :
+    ∃ f, extMatcher m p = .ok f ∧ ∀ s, f s = globMatch m p s := by
+  refine ⟨t.matches, ?_, regexp_language_ext_partial m p t he hx hf hs hl h⟩
+  unfold extMatcher
+  simp [he, h, regexp_compiles_ext_partial m p t he hx hf hs hl h]
 
 /-- In that region `Regexp` never answers with a NegExtGlobError. -/
 theorem regexp_total_partial (m : Mode) (p : Str) (he : m.entire = true)
@@ -165,6 +274,10 @@ example : globMatch m4 (strOf "a*[!b-d[:digit:]]\\??") (strOf "axyz?q") = true :
 example : globMatch m4 (strOf "a*[!b-d[:digit:]]\\??") (strOf "axyc?q") = false := by decide +kernel
 example : globMatch m4 (strOf "[-+]") (strOf "-") = true := by decide +kernel
 example : malformed m4 (strOf "[z-a]") = some (.badRange 122 97) := by decide +kernel
+example : supported m68 (strOf "a@(b*|c?)+(x|\\|)[0-9]") = true ∧ flatLists m68 (strOf "a@(b*|c?)+(x|\\|)[0-9]") = true := by
+  decide +kernel
+example : globMatch m68 (strOf "a@(b*|c?)+(x|\\|)[0-9]") (strOf "abzzx|x7") = true := by decide +kernel
+example : flatLists m68 (strOf "+([0-9])") = false := by decide +kernel
 example : globMatch m68 (strOf "@(a(b)c)") (strOf "a(b)c") = true := by decide +kernel
 
 end ShVerif.C17
